@@ -293,7 +293,8 @@ def _is_f43(v, rec):
     # Storage with block_size: the block boundaries are generated with pd.date_range(start = window start - one block, freq = block_size) in the grid's
     # zone; if the (interval) grid starts in the hour after the spring-forward gap, a calendar-day step from "start - 1 day" lands on the wall-clock
     # time that does not exist on the switch day -> pandas raises NonExistentTimeError inside the storage set-up (the unsplit horizon works)
-    if v.get('clause') != 'split.setup_works' or 'NonExistentTimeError' not in str(v.get('error', '')):
+    # (autumn: the same step lands on the wall-clock hour that exists twice -> AmbiguousTimeError)
+    if v.get('clause') != 'split.setup_works' or not any(k in str(v.get('error', '')) for k in ('NonExistentTimeError', 'AmbiguousTimeError')):
         return False
     spec = ((rec.get('spec') or {}).get('spec') or {})
     def has_blocks(a):
@@ -301,4 +302,17 @@ def _is_f43(v, rec):
     return any(has_blocks(a) for a in spec.get('assets', []))
 
 
-CLASSIFIERS = {'c14_block_storage_interval_starts_after_dst_gap': _is_f43}
+def _is_f60(v, rec):
+    # periodic asset: __make_periodic__ numbers periods / durations from pd.date_range(first point - one period (an ABSOLUTE Timedelta), ..., freq = period),
+    # which for calendar frequencies ('d') steps in wall-clock time; an interval grid that starts less than one duration after a clock change makes that range
+    # start on the wall-clock hour that exists twice (autumn) or not at all (spring) -> pandas raises inside the set-up of the interval, the unsplit horizon
+    # (starting earlier) works
+    if v.get('clause') != 'split.setup_works' or not any(k in str(v.get('error', '')) for k in ('NonExistentTimeError', 'AmbiguousTimeError')):
+        return False
+    spec = ((rec.get('spec') or {}).get('spec') or {})
+    def has_periodic(a):
+        return bool(a.get('periodicity')) or any(has_periodic(x) for x in a.get('assets', [])) or ('base' in a and has_periodic(a['base']))
+    return any(has_periodic(a) for a in spec.get('assets', []))
+
+
+CLASSIFIERS = {'c14_block_storage_interval_starts_after_dst_gap': _is_f43, 'c14_periodic_asset_interval_starts_after_clock_change': _is_f60}
